@@ -121,7 +121,7 @@ def run_stage(pid, flavour, binary, seconds, tier, seed, nworkers, extra, known_
             env["UBSAN_OPTIONS"] = "halt_on_error=1:exitcode=77:print_stacktrace=1"
             env["AMGSIM_ASAN_FILL"] = "%d" % fills[w % len(fills)]
         cmd = [exe, "--seed", str(seed), "--from", str(w), "--stride", str(nworkers), "--count", "1000000000",
-               "--time", str(seconds), "--tier", tier, "--replay-dir", replay_dir, "--known", known_path] + extra
+               "--time", str(seconds), "--tier", tier, "--replay-dir", replay_dir, "--known", known_path, "--shrink-secs", "20" if tier == "quick" else "120"] + extra
         wk = Worker(w, cmd, env)
         wk.start()
         workers.append(wk)
@@ -211,6 +211,8 @@ def classify_crash(pid, crash, seed, tier, replay_dir, known):
         ks = [json.loads(l[2:]) for l in outs[0][1].splitlines() if l.startswith("K ")]
         if vs or ks:
             return ("violations", [dict(v, flavour=crash["flavour"], exe=exe) for v in vs], ks)
+        if crash["kind"] == "hang":
+            return ("note", "run %s produced no output for %.0f s in its worker but completes when replayed alone (slow run under load, not a hang)" % (crash["run"], HANG_LIMIT[tier]))
         return ("error", "crash of run %s did not reproduce in a fresh process (%s)" % (crash["run"], crash["kind"]))
     if rcs[0] != rcs[1]:
         return ("error", "crash of run %s reproduces inconsistently: %s" % (crash["run"], rcs))
@@ -313,6 +315,8 @@ def main():
         if kind == "violations":
             violations.extend(val)
             agg.setdefault("known", []).extend(cc[2])
+        elif kind == "note":
+            messages.append("NOTE " + val)
         elif kind == "error":
             messages.append("SIMULATOR-PROBLEM " + val)
             rc = 2
